@@ -178,6 +178,7 @@ func init() {
 				c.R.Floor("R-EXPLICIT", 8)
 			},
 			func(c *Ctx) { c.ruleReflect("R-REFLECT", c.scopeData()); c.R.Floor("R-REFLECT", 10) },
+			func(c *Ctx) { c.ruleKindPre("R-KINDPRE", c.scopeData()); c.R.Floor("R-KINDPRE", 40) },
 			func(c *Ctx) { c.ruleHashKey("R-HASHKEY", c.scopeData()); c.R.Floor("R-HASHKEY", 1) },
 			func(c *Ctx) { c.ruleTypedNil("R-TYPEDNIL", c.scopeData()) },
 			func(c *Ctx) { c.ruleDivZero("R-DIVZERO", c.scopeData()); c.R.Floor("R-DIVZERO", 1) },
